@@ -13,6 +13,10 @@ Driver for C12.  Protocol (one case):
   sink                            -> m ok nodes=<n> toks=<n> h=<fnv64 of the tree dump> text=<b> prem=<6 bits>
                                      | m panic | m diverge
   errs (<lo> <hi>)* | errs -      -> m n=<n> inb=<b> attok=<b>
+  pops <op>* | pops -             parser operations reconstructed from the real events and errors:
+                                  s | c<pos>:<kind> | p<pos> | b | e | n<kind> | f
+  parse <root kind>               -> m ok n=<events> ev=<fnv64 of the model parser's events> errs=<fnv64 of
+                                     its error ranges> disc=<b> atend=<b> | m panic | m diverge
   impl … / tag … / # …            ignored
   end
 -/
@@ -26,6 +30,7 @@ structure St where
   toks : List Tok := []
   events : List Event := []
   errs : List (Nat × Nat) := []
+  pops : List POp := []
 
 def lookup (tbl : List (Nat × Nat)) (k : Nat) : Option Nat :=
   match tbl with
@@ -73,6 +78,20 @@ def parseEvent (w : String) : Option Event :=
     | _ => none
   | _ => none
 
+def parsePOp (w : String) : Option POp :=
+  match w.toList with
+  | ['s'] => some .start
+  | ['b'] => some .bump
+  | ['e'] => some .error
+  | 'p' :: r => (String.ofList r).toNat?.map .precede
+  | 'c' :: r =>
+    match (String.ofList r).splitOn ":" with
+    | [p, k] => do some (.complete (← p.toNat?) (← k.toNat?))
+    | _ => none
+  | 'n' :: r => (String.ofList r).toNat?.map .startNode
+  | ['f'] => some .finishNode
+  | _ => none
+
 /-! FNV-1a, 64 bit (same function as `Fnv` in harness/src/c12.rs). -/
 def fnvInit : UInt64 := 0xcbf29ce484222325
 def fnvByte (h : UInt64) (b : Nat) : UInt64 := (h ^^^ b.toUInt64) * 0x00000100000001b3
@@ -86,6 +105,18 @@ def hex16 (h : UInt64) : String :=
 
 def hashToks (ts : List Tok) : UInt64 :=
   ts.foldl (fun h t => fnvU32 (fnvU32 (fnvU16 h t.kind) t.lo) t.hi) fnvInit
+
+def hashEvents (es : List Event) : UInt64 :=
+  es.foldl (fun h e =>
+    match e with
+    | .start k none => fnvU16 (fnvByte h 1) k
+    | .start k (some d) => fnvU32 (fnvU16 (fnvByte h 2) k) d
+    | .token k n => fnvU32 (fnvU16 (fnvByte h 3) k) n
+    | .finish => fnvByte h 4
+    | .placeholder => fnvByte h 5) fnvInit
+
+def hashRanges (rs : List (Nat × Nat)) : UInt64 :=
+  rs.foldl (fun h r => fnvU32 (fnvU32 h r.1) r.2) fnvInit
 
 structure Dump where
   h : UInt64 := fnvInit
@@ -150,6 +181,19 @@ def step (st : St) (line : String) : St × Option String :=
             (match st.lang with | some L => !L.isTrivia t.kind | none => false)
       (st, some s!"m n={es.length} inb={bit inb} attok={bit attok}")
     | none => (st, some "bad-op")
+  | "pops" :: ws =>
+    match (if ws = ["-"] then some [] else ws.mapM parsePOp) with
+    | some ops => ({ st with pops := ops }, none)
+    | none => (st, some "bad-op")
+  | ["parse", root] =>
+    match st.lang, root.toNat? with
+    | some L, some root =>
+      match run L (PState.init st.toks) (parseOps root st.pops) with
+      | .ok s =>
+        (st, some s!"m ok n={s.events.length} ev={hex16 (hashEvents s.events)} errs={hex16 (hashRanges s.errors)} disc={bit (decide (Disciplined st.pops))} atend={bit (atEnd L s)}")
+      | .panic => (st, some "m panic")
+      | .diverge => (st, some "m diverge")
+    | _, _ => (st, some "bad-op")
   | ["lex"] =>
     match st.lang with
     | none => (st, some "bad-op")
